@@ -512,6 +512,16 @@ theorem exec_key (ctx : Lscr.Ctx) (i : Nat) (v : Spec.Name) (hn : ctx.names[i]? 
   unfold process1
   simp only [nameAt, pyGet_some _ _ _ hn, PState.pop, hs, Bind.bind, Except.bind, pure, Except.pure, PState.push]
 
+/-- opcode 61: `the <p> of <obj>` -/
+theorem exec_oprop (ctx : Lscr.Ctx) (i : Nat) (v : Spec.Name) (hn : ctx.names[i]? = some v) (a : Int) (st : PState)
+    (x : Node) (rest : List Node) (hs : st.stack = x :: rest) :
+    execI ctx (.op2 0x61 i) a st = .ok { st with stack := .propAcc a x v :: rest } := by
+  have hl : Opcodes.opcodes.lookup 0x61 = some { cls := "PropertyAccesorOpcode", impl := "PropertyAccesorOpcode", nbytes := 2, kind := "param1", attrs := [] } := rfl
+  have hk : ¬ ("param1" = "bi" ∨ "param1" = "tri") := by decide
+  simp only [execI, hl, hk, if_false]
+  unfold process1
+  simp only [nameAt, pyGet_some _ _ _ hn, PState.pop, hs, Bind.bind, Except.bind, pure, Except.pure, PState.push]
+
 theorem knownAssign_owner : ∀ kv ∈ Gen.PropTables.knownPropertiesAssign, startsWith kv.2.toList (S "_") = true := by decide
 
 theorem dictGet_mem (d : List (String × String)) (key o : Str) (h : dictGet d key = .ok o) : ∃ kv ∈ d, kv.2.toList = o := by
@@ -753,7 +763,7 @@ theorem EmbH.toEmb (hs : List Spec.Name) : ∀ (e : Expr) (n : Node), EmbH hs e 
     | nil => cases t <;> first | (simp [EmbH] at h; done) | (simp only [EmbH] at h; simp only [Emb]; exact h)
   | .key _, _, h => by simp only [EmbH] at h; simp only [Emb]; exact h
   | .movie _, _, h => by simp only [EmbH] at h; simp only [Emb]; exact h
-  | .oprop _ _, _, h => by simp [EmbH] at h
+  | .oprop v o, _, h => by obtain ⟨p, x, rfl, hx⟩ := h; exact ⟨p, x, rfl, EmbH.toEmb hs o x hx⟩
   | .chunk _ _ _ _, _, h => by simp [EmbH] at h
 theorem EmbLH.toEmbL (hs : List Spec.Name) : ∀ (as : List Expr) (ns : List Node), EmbLH hs as ns → EmbL as ns
   | [], _, h => h
@@ -1226,7 +1236,27 @@ theorem stack_lemma : ∀ (e : Expr), FragE e = true → ∀ (c : Spec.Ctx) (s0 
     have hnm : ctx.names[i]? = some v := by rw [hrel.names]; exact hF.name hget
     obtain ⟨n, hn', hex⟩ := exec_movie ctx i v hnm (a : Int) st
     exact ⟨n, st.gvars, by simp only [EmbH]; exact hn', GvNext.refl hgv, by rw [runIs_single, hex]⟩
-  | .oprop _ _, hf, _, _, _, _, _ => by simp [FragE] at hf
+  | .oprop v o, hf, c, s0, s1, code, h => by
+    simp only [FragE, Bool.and_eq_true] at hf
+    obtain ⟨_, hfo⟩ := hf
+    rw [lowerExpr] at h
+    simp only [M_bind_ok, M_pure_ok, Prod.mk.injEq] at h
+    obtain ⟨co, s', ho, i, s2, hn, cd, s3, hc, rfl, rfl⟩ := h
+    obtain ⟨hext1, hop1, hrun1⟩ := stack_lemma o hfo c s0 s' co ho
+    obtain ⟨hext2, hget, hlt, _⟩ := nameIdx_ok _ _ _ _ hn
+    obtain ⟨rfl, rfl, hx⟩ := op2c_ok _ _ _ _ _ hc
+    refine ⟨hext1.trans hext2, ?_, ?_⟩
+    · intro j hj
+      rcases List.mem_append.mp hj with hj | hj
+      · exact hop1 j hj
+      · simp only [List.mem_singleton] at hj; subst hj; simp [Instr.opc]
+    intro sF ctx hF hrel G hG a st hb hgv
+    have hnm : ctx.names[i]? = some v := by rw [hrel.names]; exact hF.name hget
+    obtain ⟨n, gv1, hemb, hgv1, hr1⟩ := hrun1 sF ctx (hext2.trans hF) hrel G (by simpa [Expr.vars] using hG) a st hb hgv
+    refine ⟨.propAcc ((a + codeSize co : Nat) : Int) n v, gv1, ⟨_, n, rfl, hemb⟩, hgv1, ?_⟩
+    rw [runIs_append, hr1]
+    simp only [Except.bind]
+    rw [runIs_single, exec_oprop ctx i v hnm _ _ n st.stack rfl]
   | .chunk _ _ _ _, hf, _, _, _, _, _ => by simp [FragE] at hf
 /-- argument lists: every argument is pushed, first argument deepest -/
 theorem args_lemma : ∀ (as : List Expr), FragL as = true → ∀ (c : Spec.Ctx) (s0 s1 : St) (code : List Instr),
@@ -1323,6 +1353,126 @@ theorem exec_setprop (ctx : Lscr.Ctx) (i : Nat) (v : Spec.Name) (hn : ctx.names[
   simp only [execI, hl, hk, if_false]
   unfold process1
   simp only [nameAt, pyGet_some _ _ _ hn, hpr, if_true, PState.pop, hs, PState.addStmt, assignNode, Bind.bind, Except.bind, pure, Except.pure]
+
+/-! #### assignments to built-in properties: `set the <p> [of sprite n] = v` (5d xx) -/
+
+theorem bi_lookup_5d : Opcodes.opcodes.lookup 0x5d = some { cls := "AssignSoundPropertiesOpcode", impl := "AssignSoundPropertiesOpcode", nbytes := 2, kind := "bi", attrs := [] } := rfl
+
+theorem assignObjProp_ok (cls : Leaf) (tb : List (Nat × String)) (mt : List String) (hall : tb.all (objRowOk tb mt) = true) (k : Nat)
+    (hk : tb.any (fun x => x.1 == k) = true) (a : Int) (st : PState) (p : Int) (v x : Node) (nm : Lscr.Name) (hx : x.name = .ok nm)
+    (rest : List Node) (hs : st.stack = .leaf .const (.s (natStr k)) p :: v :: x :: rest) :
+    assignObjProp cls mt st a = .ok { st with stack := rest, stmts := st.stmts ++ [.stmt a (.binary (S "assign") a (.propAcc a (.leaf cls nm a) (nameOrUnknown tb k)) v)] } := by
+  have h1 : (Node.leaf .const (.s (natStr k)) p).name = .ok (.s (natStr k)) := rfl
+  simp only [assignObjProp, popInt, popName, PState.pop, hs, h1, toInt_natStr, hx, obj_table tb mt hall k hk, Bind.bind, Except.bind, pure,
+    Except.pure, PState.addStmt, assignNode]
+
+theorem exec_assignobj (ctx : Lscr.Ctx) (t : Tbl) (cls : Leaf) (tb : List (Nat × String)) (w : String) (ht : theTbl t = some (cls, tb, w))
+    (k : Nat) (hk : tb.any (fun x => x.1 == k) = true) (a : Int) (st : PState) (p : Int) (v x : Node) (nm : Lscr.Name)
+    (hx : x.name = .ok nm) (rest : List Node) (hs : st.stack = .leaf .const (.s (natStr k)) p :: v :: x :: rest) :
+    execI ctx (.op2 0x5d t.code) a st = .ok { st with stack := rest, stmts := st.stmts ++ [.stmt a (.binary (S "assign") a (.propAcc a (.leaf cls nm a) (nameOrUnknown tb k)) v)] } := by
+  have hkb : ("bi" = "bi" ∨ "bi" = "tri") := Or.inl rfl
+  cases t with
+  | sound =>
+    simp only [theTbl, Option.some.injEq, Prod.mk.injEq] at ht
+    obtain ⟨rfl, rfl, rfl⟩ := ht
+    have hb : Opcodes.biOpcodes.lookup 23812 = some { cls := "AssignSoundPropertiesOpcode", impl := "AssignSoundPropertiesOpcode", nbytes := 2, kind := "bi", attrs := [] } := rfl
+    simp only [execI, Tbl.code, bi_lookup_5d, hkb, if_true, Nat.reduceMul, Nat.reduceAdd, hb, true_or]
+    have hp : process ctx { cls := "AssignSoundPropertiesOpcode", impl := "AssignSoundPropertiesOpcode", nbytes := 2, kind := "bi", attrs := [] } 0 0 a st
+        = process0 ctx { cls := "AssignSoundPropertiesOpcode", impl := "AssignSoundPropertiesOpcode", nbytes := 2, kind := "bi", attrs := [] } a st := by
+      unfold process
+      rw [if_neg (by decide), if_neg (by decide)]
+    rw [hp]
+    unfold process0
+    exact assignObjProp_ok _ _ _ sound_rows k hk a st p v x nm hx rest hs
+  | sprite =>
+    simp only [theTbl, Option.some.injEq, Prod.mk.injEq] at ht
+    obtain ⟨rfl, rfl, rfl⟩ := ht
+    have hb : Opcodes.biOpcodes.lookup 23814 = some { cls := "AssignSpritePropertiesOpcode", impl := "AssignSpritePropertiesOpcode", nbytes := 2, kind := "bi", attrs := [] } := rfl
+    simp only [execI, Tbl.code, bi_lookup_5d, hkb, if_true, Nat.reduceMul, Nat.reduceAdd, hb, true_or]
+    have hp : process ctx { cls := "AssignSpritePropertiesOpcode", impl := "AssignSpritePropertiesOpcode", nbytes := 2, kind := "bi", attrs := [] } 0 0 a st
+        = process0 ctx { cls := "AssignSpritePropertiesOpcode", impl := "AssignSpritePropertiesOpcode", nbytes := 2, kind := "bi", attrs := [] } a st := by
+      unfold process
+      rw [if_neg (by decide), if_neg (by decide)]
+    rw [hp]
+    unfold process0
+    exact assignObjProp_ok _ _ _ sprite_rows k hk a st p v x nm hx rest hs
+  | cast =>
+    simp only [theTbl, Option.some.injEq, Prod.mk.injEq] at ht
+    obtain ⟨rfl, rfl, rfl⟩ := ht
+    have hb : Opcodes.biOpcodes.lookup 23817 = some { cls := "AssignCastPropertiesOpcode", impl := "AssignCastPropertiesOpcode", nbytes := 2, kind := "bi", attrs := [] } := rfl
+    simp only [execI, Tbl.code, bi_lookup_5d, hkb, if_true, Nat.reduceMul, Nat.reduceAdd, hb, true_or]
+    have hp : process ctx { cls := "AssignCastPropertiesOpcode", impl := "AssignCastPropertiesOpcode", nbytes := 2, kind := "bi", attrs := [] } 0 0 a st
+        = process0 ctx { cls := "AssignCastPropertiesOpcode", impl := "AssignCastPropertiesOpcode", nbytes := 2, kind := "bi", attrs := [] } a st := by
+      unfold process
+      rw [if_neg (by decide), if_neg (by decide)]
+    rw [hp]
+    unfold process0
+    exact assignObjProp_ok _ _ _ cast_rows k hk a st p v x nm hx rest hs
+  | video =>
+    simp only [theTbl, Option.some.injEq, Prod.mk.injEq] at ht
+    obtain ⟨rfl, rfl, rfl⟩ := ht
+    have hb : Opcodes.biOpcodes.lookup 23821 = some { cls := "AssignVideoPropertiesOpcode", impl := "AssignVideoPropertiesOpcode", nbytes := 2, kind := "bi", attrs := [] } := rfl
+    simp only [execI, Tbl.code, bi_lookup_5d, hkb, if_true, Nat.reduceMul, Nat.reduceAdd, hb, true_or]
+    have hp : process ctx { cls := "AssignVideoPropertiesOpcode", impl := "AssignVideoPropertiesOpcode", nbytes := 2, kind := "bi", attrs := [] } 0 0 a st
+        = process0 ctx { cls := "AssignVideoPropertiesOpcode", impl := "AssignVideoPropertiesOpcode", nbytes := 2, kind := "bi", attrs := [] } a st := by
+      unfold process
+      rw [if_neg (by decide), if_neg (by decide)]
+    rw [hp]
+    unfold process0
+    exact assignObjProp_ok _ _ _ video_rows k hk a st p v x nm hx rest hs
+  | _ => simp [theTbl] at ht
+
+theorem exec_assignsys (ctx : Lscr.Ctx) (k : Nat) (hk : tblSys.any (fun x => x.1 == k) = true) (a : Int) (st : PState) (p : Int) (v : Node)
+    (rest : List Node) (hs : st.stack = .leaf .const (.s (natStr k)) p :: v :: rest) :
+    ∃ o, (startsWith o (S "_") = true ∨ o = S "tell_obj") ∧
+      execI ctx (.op2 0x5d 7) a st = .ok { st with stack := rest, stmts := st.stmts ++ [.stmt a (.binary (S "assign") a (.propAcc a (.leaf .localVar (.s o) a) (nameOrUnknown tblSys k)) v)] } := by
+  obtain ⟨o, hd, ho⟩ := sys_table k hk
+  have hkb : ("bi" = "bi" ∨ "bi" = "tri") := Or.inl rfl
+  have hcode : (7 : Nat) = Tbl.sys.code := rfl
+  rw [hcode]
+  have hb : Opcodes.biOpcodes.lookup 23815 = some { cls := "AssignSystemPropertiesOpcode", impl := "AssignSystemPropertiesOpcode", nbytes := 2, kind := "bi", attrs := [] } := rfl
+  simp only [execI, Tbl.code, bi_lookup_5d, hkb, if_true, Nat.reduceMul, Nat.reduceAdd, hb, true_or]
+  have hp : process ctx { cls := "AssignSystemPropertiesOpcode", impl := "AssignSystemPropertiesOpcode", nbytes := 2, kind := "bi", attrs := [] } 0 0 a st
+      = process0 ctx { cls := "AssignSystemPropertiesOpcode", impl := "AssignSystemPropertiesOpcode", nbytes := 2, kind := "bi", attrs := [] } a st := by
+    unfold process
+    rw [if_neg (by decide), if_neg (by decide)]
+  rw [hp]
+  unfold process0
+  simp only [systemProps, assignTop, popInt, PState.pop, hs, Node.name, toInt_natStr, hd, Bind.bind, Except.bind, pure, Except.pure, PState.push,
+    PState.addStmt, assignNode]
+  by_cases ht : st.tell = true
+  · rw [if_pos ht]
+    exact ⟨S "tell_obj", Or.inr rfl, rfl⟩
+  · rw [if_neg ht]
+    exact ⟨o, Or.inl ho, rfl⟩
+
+theorem exec_assignspecial (ctx : Lscr.Ctx) (k : Nat) (hk : k < 6) (a : Int) (st : PState) (p : Int) (v : Node)
+    (rest : List Node) (hs : st.stack = .leaf .const (.s (natStr k)) p :: v :: rest) :
+    execI ctx (.op2 0x5d 0) a st = .ok { st with stack := rest, stmts := st.stmts ++ [.stmt a (.binary (S "assign") a (.leaf .propName (.s (nameOrUnknown tblSpecial k)) a) v)] } := by
+  have hkb : ("bi" = "bi" ∨ "bi" = "tri") := Or.inl rfl
+  have hcode : (0 : Nat) = Tbl.special.code := rfl
+  rw [hcode]
+  have hb : Opcodes.biOpcodes.lookup 23808 = some { cls := "AssignSpecialPropertiesOpcode", impl := "AssignSpecialPropertiesOpcode", nbytes := 2, kind := "bi", attrs := [] } := rfl
+  simp only [execI, Tbl.code, bi_lookup_5d, hkb, if_true, Nat.reduceMul, Nat.reduceAdd, hb, true_or]
+  have hp : process ctx { cls := "AssignSpecialPropertiesOpcode", impl := "AssignSpecialPropertiesOpcode", nbytes := 2, kind := "bi", attrs := [] } 0 0 a st
+      = process0 ctx { cls := "AssignSpecialPropertiesOpcode", impl := "AssignSpecialPropertiesOpcode", nbytes := 2, kind := "bi", attrs := [] } a st := by
+    unfold process
+    rw [if_neg (by decide), if_neg (by decide)]
+  rw [hp]
+  unfold process0
+  have hlt : ((k : Nat) : Int) < 6 := by omega
+  simp only [specialProps, assignTop, popInt, PState.pop, hs, Node.name, toInt_natStr, hlt, if_true, special_table k hk, Bind.bind,
+    Except.bind, pure, Except.pure, PState.push, PState.addStmt, assignNode]
+
+/-- opcode 62: `set the <p> of <obj> = v` -/
+theorem exec_setoprop (ctx : Lscr.Ctx) (i : Nat) (v : Spec.Name) (hn : ctx.names[i]? = some v) (a : Int) (st : PState)
+    (val x : Node) (rest : List Node) (hs : st.stack = val :: x :: rest) :
+    execI ctx (.op2 0x62 i) a st = .ok { st with stack := rest, stmts := st.stmts ++ [.stmt a (.binary (S "assign") a (.propAcc a x v) val)] } := by
+  have hl : Opcodes.opcodes.lookup 0x62 = some { cls := "AssignPropertyAccesorOpcode", impl := "AssignPropertyAccesorOpcode", nbytes := 2, kind := "param1", attrs := [] } := rfl
+  have hk : ¬ ("param1" = "bi" ∨ "param1" = "tri") := by decide
+  simp only [execI, hl, hk, if_false]
+  unfold process1
+  simp only [nameAt, pyGet_some _ _ _ hn, PState.pop, hs, PState.addStmt, assignNode, Bind.bind, Except.bind, pure, Except.pure]
 
 /-- the statement node carries the address of an instruction of its own code -/
 def StmtIn (a len : Nat) (n : Node) : Prop := ∃ p c, n = .stmt p c ∧ (a : Int) ≤ p ∧ p < ((a + len : Nat) : Int)
@@ -1452,6 +1602,157 @@ theorem stmt_lemma (s : Stmt) (hf : FragS s = true) (c : Spec.Ctx) (hT : c.inTel
           rw [runIs_append, hr1]
           simp only [Except.bind]
           rw [runIs_single, exec_setprop ctx i n hnm (hP n (by simp [Stmt.vars, Expr.vars])) _ { st with stack := nv :: st.stack, gvars := gv1 } nv st.stack rfl]
+      all_goals (intros; contradiction)
+    | the t k as =>
+      simp only [FragLv] at hlv
+      have hlow : ∃ ca s' cv s'' ci, lowerArgs c as s0 = .ok (ca, s') ∧ lowerExpr c v s' = .ok (cv, s'') ∧ lowerInt k s'' = .ok (ci, s1) ∧
+          cs = [.code (ca ++ cv ++ ci ++ [.op2 0x5d t.code])] := by
+        rw [lowerStmt] at h
+        simp only [M_bind_ok, M_pure_ok, Prod.mk.injEq] at h
+        obtain ⟨ca, s', ha, cv, s'', hv, ci, s3, hi, rfl, rfl⟩ := h
+        exact ⟨ca, s', cv, s'', ci, ha, hv, hi, rfl⟩
+      obtain ⟨ca, s', cv, s'', ci, ha, hv, hi, rfl⟩ := hlow
+      obtain ⟨hextv, hopv, hrunv⟩ := stack_lemma v hfv c s' s'' cv hv
+      obtain ⟨hexti, hopi, hruni⟩ := lowerInt_ok k s'' s1 ci hi
+      cases as with
+      | nil =>
+        have hca : ca = [] ∧ s' = s0 := by
+          rw [lowerArgs] at ha
+          simp only [M_pure_ok, Prod.mk.injEq] at ha
+          exact ⟨by simpa [eq_comm] using ha.1, by simpa [eq_comm] using ha.2⟩
+        obtain ⟨rfl, rfl⟩ := hca
+        refine ⟨hextv.trans hexti, _, rfl, ?_, ?_⟩
+        · intro i hi
+          rcases List.mem_append.mp hi with hi | hi
+          · rcases List.mem_append.mp hi with hi | hi
+            · rcases List.mem_append.mp hi with hi | hi
+              · cases hi
+              · exact hopv i hi
+            · exact hopi i hi
+          · simp only [List.mem_singleton] at hi; subst hi; simp [Instr.opc]
+        intro sF ctx hF hrel G hG hP a st hb hgv
+        have hG' : ∀ g ∈ v.vars .glob, g ∈ G := fun g hg => hG g (by simp [Stmt.vars, Expr.vars, hg])
+        obtain ⟨nv, gv1, hemb, hgv1, hr1⟩ := hrunv sF ctx (hexti.trans hF) hrel G hG' a st hb hgv
+        obtain ⟨i, rfl, hex⟩ := hruni c sF ctx hF hrel ((a + codeSize cv : Nat) : Int) { st with stack := nv :: st.stack, gvars := gv1 } hb
+        have hpre : ([] ++ cv ++ [i] ++ [Instr.op2 0x5d t.code] : List Instr) = (cv ++ [i]) ++ [Instr.op2 0x5d t.code] := by simp
+        rw [hpre]
+        cases t with
+        | sys =>
+          simp only [FragE] at hlv
+          obtain ⟨o, ho, hs⟩ := exec_assignsys ctx k hlv ((a + codeSize (cv ++ [i]) : Nat) : Int)
+            { st with stack := .leaf .const (.s (natStr k)) ((a + codeSize cv : Nat) : Int) :: nv :: st.stack, gvars := gv1 }
+            ((a + codeSize cv : Nat) : Int) nv st.stack rfl
+          refine ⟨.stmt ((a + codeSize (cv ++ [i]) : Nat) : Int) (.binary (S "assign") ((a + codeSize (cv ++ [i]) : Nat) : Int)
+              (.propAcc ((a + codeSize (cv ++ [i]) : Nat) : Int) (.leaf .localVar (.s o) ((a + codeSize (cv ++ [i]) : Nat) : Int)) (nameOrUnknown tblSys k)) nv),
+            gv1, ⟨_, _, _, nv, rfl, ?_, hemb⟩, PlainStmt.bin _ _ _ _ _, stmtIn_last a (cv ++ [i]) _ _, hgv1, ?_⟩
+          · simp only [EmbLv, Emb]; exact ⟨_, _, o, rfl, ho⟩
+          · rw [runIs_append, runIs_append, hr1]
+            simp only [Except.bind]
+            rw [runIs_single, hex]
+            simp only [Except.bind]
+            rw [runIs_single]
+            exact hs
+        | special =>
+          simp only [FragE, decide_eq_true_eq] at hlv
+          have hs := exec_assignspecial ctx k hlv ((a + codeSize (cv ++ [i]) : Nat) : Int)
+            { st with stack := .leaf .const (.s (natStr k)) ((a + codeSize cv : Nat) : Int) :: nv :: st.stack, gvars := gv1 }
+            ((a + codeSize cv : Nat) : Int) nv st.stack rfl
+          refine ⟨.stmt ((a + codeSize (cv ++ [i]) : Nat) : Int) (.binary (S "assign") ((a + codeSize (cv ++ [i]) : Nat) : Int)
+              (.leaf .propName (.s (nameOrUnknown tblSpecial k)) ((a + codeSize (cv ++ [i]) : Nat) : Int)) nv),
+            gv1, ⟨_, _, _, nv, rfl, ?_, hemb⟩, PlainStmt.bin _ _ _ _ _, stmtIn_last a (cv ++ [i]) _ _, hgv1, ?_⟩
+          · simp only [EmbLv, Emb]; exact ⟨_, rfl⟩
+          · rw [runIs_append, runIs_append, hr1]
+            simp only [Except.bind]
+            rw [runIs_single, hex]
+            simp only [Except.bind]
+            rw [runIs_single]
+            exact hs
+        | _ => simp [FragE] at hlv
+      | cons x xs =>
+        cases xs with
+        | cons y ys => cases t <;> simp [FragE] at hlv
+        | nil =>
+          simp only [FragE, Bool.and_eq_true] at hlv
+          obtain ⟨⟨htk, hidx⟩, hfe⟩ := hlv
+          cases ht : theTbl t with
+          | none => rw [ht] at htk; simp at htk
+          | some tv =>
+            obtain ⟨cls, tb, w⟩ := tv
+            rw [ht] at htk
+            simp only at htk
+            obtain ⟨nm, hnm⟩ := Option.isSome_iff_exists.mp hidx
+            have hca : lowerExpr c x s0 = .ok (ca, s') := by
+              rw [lowerArgs, lowerArgs] at ha
+              simp only [M_bind_ok, M_pure_ok, Prod.mk.injEq] at ha
+              obtain ⟨ce, s2, he, cs2, s3, ⟨rfl, rfl⟩, rfl, rfl⟩ := ha
+              simpa using he
+            obtain ⟨hextx, hopx, hrunx⟩ := stack_lemma x hfe c s0 s' ca hca
+            refine ⟨(hextx.trans hextv).trans hexti, _, rfl, ?_, ?_⟩
+            · intro i hi
+              rcases List.mem_append.mp hi with hi | hi
+              · rcases List.mem_append.mp hi with hi | hi
+                · rcases List.mem_append.mp hi with hi | hi
+                  · exact hopx i hi
+                  · exact hopv i hi
+                · exact hopi i hi
+              · simp only [List.mem_singleton] at hi; subst hi; simp [Instr.opc]
+            intro sF ctx hF hrel G hG hP a st hb hgv
+            have hGx : ∀ g ∈ x.vars .glob, g ∈ G := fun g hg => hG g (by simp [Stmt.vars, Expr.vars, Expr.varsList, hg])
+            have hGv : ∀ g ∈ v.vars .glob, g ∈ G := fun g hg => hG g (by simp [Stmt.vars, Expr.vars, hg])
+            obtain ⟨nx, gv0, hembx, hgv0, hr0⟩ := hrunx sF ctx ((hextv.trans hexti).trans hF) hrel G hGx a st hb hgv
+            obtain ⟨nv, gv1, hemb, hgv1, hr1⟩ := hrunv sF ctx (hexti.trans hF) hrel G hGv (a + codeSize ca)
+              { st with stack := nx :: st.stack, gvars := gv0 } hb hgv0.1
+            obtain ⟨i, rfl, hex⟩ := hruni c sF ctx hF hrel ((a + codeSize (ca ++ cv) : Nat) : Int)
+              { st with stack := nv :: nx :: st.stack, gvars := gv1 } hb
+            have hname := embH_idx_name c.handlers x nm nx hnm hembx
+            have hs := exec_assignobj ctx t cls tb w ht k htk ((a + codeSize (ca ++ cv ++ [i]) : Nat) : Int)
+              { st with stack := .leaf .const (.s (natStr k)) ((a + codeSize (ca ++ cv) : Nat) : Int) :: nv :: nx :: st.stack, gvars := gv1 }
+              ((a + codeSize (ca ++ cv) : Nat) : Int) nv nx nm hname st.stack rfl
+            refine ⟨.stmt ((a + codeSize (ca ++ cv ++ [i]) : Nat) : Int) (.binary (S "assign") ((a + codeSize (ca ++ cv ++ [i]) : Nat) : Int)
+                (.propAcc ((a + codeSize (ca ++ cv ++ [i]) : Nat) : Int) (.leaf cls nm ((a + codeSize (ca ++ cv ++ [i]) : Nat) : Int)) (nameOrUnknown tb k)) nv),
+              gv1, ⟨_, _, _, nv, rfl, ?_, hemb⟩, PlainStmt.bin _ _ _ _ _, stmtIn_last a (ca ++ cv ++ [i]) _ _, hgv0.trans hgv1, ?_⟩
+            · simp only [EmbLv, Emb]; exact ⟨_, _, cls, tb, w, nm, ht, hnm, rfl⟩
+            · rw [runIs_append, runIs_append, runIs_append, hr0]
+              simp only [Except.bind]
+              rw [hr1]
+              simp only [Except.bind]
+              rw [runIs_single, hex]
+              simp only [Except.bind]
+              rw [runIs_single]
+              exact hs
+    | oprop n o =>
+      simp only [FragLv, FragE, Bool.and_eq_true] at hlv
+      obtain ⟨_, hfo⟩ := hlv
+      rw [lowerStmt] at h
+      simp only [M_bind_ok, M_pure_ok, Prod.mk.injEq] at h
+      obtain ⟨co, s', ho, cv, s'', hv, i, s2, hn, cd, s3, hc, rfl, rfl⟩ := h
+      obtain ⟨hexto, hopo, hruno⟩ := stack_lemma o hfo c s0 s' co ho
+      obtain ⟨hextv, hopv, hrunv⟩ := stack_lemma v hfv c s' s'' cv hv
+      obtain ⟨hext2, hget, hlt, _⟩ := nameIdx_ok _ _ _ _ hn
+      obtain ⟨rfl, rfl, hx⟩ := op2c_ok _ _ _ _ _ hc
+      refine ⟨(hexto.trans hextv).trans hext2, _, rfl, ?_, ?_⟩
+      · intro j hj
+        rcases List.mem_append.mp hj with hj | hj
+        · rcases List.mem_append.mp hj with hj | hj
+          · exact hopo j hj
+          · exact hopv j hj
+        · simp only [List.mem_singleton] at hj; subst hj; simp [Instr.opc]
+      intro sF ctx hF hrel G hG hP a st hb hgv
+      have hnm : ctx.names[i]? = some n := by rw [hrel.names]; exact hF.name hget
+      have hGo : ∀ g ∈ o.vars .glob, g ∈ G := fun g hg => hG g (by simp [Stmt.vars, Expr.vars, hg])
+      have hGv : ∀ g ∈ v.vars .glob, g ∈ G := fun g hg => hG g (by simp [Stmt.vars, Expr.vars, hg])
+      obtain ⟨no, gv0, hembo, hgv0, hr0⟩ := hruno sF ctx ((hextv.trans hext2).trans hF) hrel G hGo a st hb hgv
+      obtain ⟨nv, gv1, hemb, hgv1, hr1⟩ := hrunv sF ctx (hext2.trans hF) hrel G hGv (a + codeSize co)
+        { st with stack := no :: st.stack, gvars := gv0 } hb hgv0.1
+      refine ⟨.stmt ((a + codeSize (co ++ cv) : Nat) : Int) (.binary (S "assign") ((a + codeSize (co ++ cv) : Nat) : Int)
+          (.propAcc ((a + codeSize (co ++ cv) : Nat) : Int) no n) nv),
+        gv1, ⟨_, _, _, nv, rfl, ?_, hemb⟩, PlainStmt.bin _ _ _ _ _, stmtIn_last a (co ++ cv) _ _, hgv0.trans hgv1, ?_⟩
+      · simp only [EmbLv, Emb]; exact ⟨_, no, rfl, EmbH.toEmb _ o no hembo⟩
+      · rw [runIs_append, runIs_append, hr0]
+        simp only [Except.bind]
+        rw [hr1]
+        simp only [Except.bind]
+        rw [runIs_single, exec_setoprop ctx i n hnm _ _ nv no st.stack rfl]
       all_goals (intros; contradiction)
     | _ => simp [FragLv] at hlv
   | call f as =>
